@@ -40,9 +40,10 @@ func VerifH_C17_streambatch() {
 	}
 	close(in)
 	vCalls, eCalls := 0, 0
-	err := StreamBatch(in, 1, "g",
+	err := StreamBatch(in, vParam("B", 2), "g",
 		func(vs []*gdbi.Vertex) error {
 			vCalls++
+			c17ReadVerticesTracked(vs)
 			if failV {
 				return errors.New("vertex write failed")
 			}
@@ -50,6 +51,7 @@ func VerifH_C17_streambatch() {
 		},
 		func(es []*gdbi.Edge) error {
 			eCalls++
+			c17ReadEdgesTracked(es)
 			if failE {
 				return errors.New("edge write failed")
 			}
@@ -59,4 +61,25 @@ func VerifH_C17_streambatch() {
 	failed := anyInvalid || (failV && vCalls > 0) || (failE && eCalls > 0)
 	vAssert("C17.streambatch.error-iff-something-failed", (err != nil) == failed)
 	vAssert("C17.streambatch.no-goroutine-left", vBlockedGoroutines() == 0)
+}
+
+// the back end reading the batch it was handed (its accesses are part of the race analysis)
+func c17ReadVerticesTracked(vs []*gdbi.Vertex) int {
+	n := 0
+	for _, v := range vs {
+		if v != nil {
+			n++
+		}
+	}
+	return n
+}
+
+func c17ReadEdgesTracked(es []*gdbi.Edge) int {
+	n := 0
+	for _, e := range es {
+		if e != nil {
+			n++
+		}
+	}
+	return n
 }
